@@ -2,7 +2,9 @@
 Model of fix templates.
 
 Mirrors (pinned commit), for `Content = String`:
-  * `crates/core/src/replacer.rs:61-114`           `MetaVarExtract`, `split_first_meta_var`
+  * `crates/core/src/replacer.rs:61-119`           `MetaVarExtract`, `split_first_meta_var`
+                                                  (with FIX_TMPL_DIGIT; the pinned function is
+                                                  `splitFirstMetaVarPinned`)
   * `crates/core/src/replacer/template.rs:13-157`  `create_template`, `replace_fixer`,
                                                   `maybe_get_var`, `TemplateFix::generate_replacement`
   * `crates/core/src/meta_var.rs:178-212`          `get_var_bytes_impl` (ranges only)
@@ -38,12 +40,42 @@ def countSigils (mc : UInt8) (src : Bytes) : Nat × Bool :=
   | [_, b] => if b = mc then (2, false) else (1, false)
   | _ => (1, false)
 
-/-- `split_first_meta_var(src, meta_char, transform)`; `src` starts with `mc`. -/
+/-- `is_valid_first_char` (`meta_var.rs`): `'A'..='Z' | '_'` -/
+def isValidFirstByte (b : UInt8) : Bool :=
+  (0x41 ≤ b && b ≤ 0x5A) || b == 0x5F
+
+/-- `name.starts_with(is_valid_first_char) || transform.contains(&name)`: a candidate name is a
+variable name iff it does not start with a digit, or it is the name of a declared
+transformation (a transformation may be called anything). -/
+def isRecognisedName (transform : List Bytes) (name : Bytes) : Bool :=
+  (match name with
+    | b :: _ => isValidFirstByte b
+    | [] => false) || transform.contains name
+
+/-- `split_first_meta_var` of the pinned commit (before FIX_TMPL_DIGIT): every non-empty run
+over `[A-Z0-9_]` after the sigils is a name, so `$100` is the (always unbound) variable `100`.
+Kept for the regression statement. -/
+def splitFirstMetaVarPinned (src : Bytes) (mc : UInt8) (transform : List Bytes) :
+    Option (MetaVarExtract × Nat) :=
+  let (skipped, isMulti) := countSigils mc src
+  let name := (src.drop skipped).takeWhile isValidMetaVarByte
+  if name.length = 0 then none
+  else
+    let var :=
+      if isMulti then MetaVarExtract.multiple name
+      else if transform.contains name then .transformed name
+      else .single name
+    some (var, skipped + name.length)
+
+/-- `split_first_meta_var(src, meta_char, transform)`; `src` starts with `mc`.
+Current code (FIX_TMPL_DIGIT): a candidate name that starts with a digit is not a variable
+unless it is a declared transformation — `$100` stays literal text. -/
 def splitFirstMetaVar (src : Bytes) (mc : UInt8) (transform : List Bytes) :
     Option (MetaVarExtract × Nat) :=
   let (skipped, isMulti) := countSigils mc src
   let name := (src.drop skipped).takeWhile isValidMetaVarByte
   if name.length = 0 then none
+  else if isRecognisedName transform name = false then none
   else
     let var :=
       if isMulti then MetaVarExtract.multiple name
